@@ -11,13 +11,23 @@ CFG = dict(
               "the keepalive timer never ends the session",
               "zero-disables: negotiated 0 => after the OPEN exchange no Set*Timer with a finite value, no leftover OpenSent "
               "hold timer, no timer-caused SessionDown",
-              "no panic"],
+              "no panic",
+              "real-time part (c08b): 240 real PeerSession::run tasks in parallel behind accept_connection over loopback, scripted "
+              "remote ends, hold pairs from {3,4,6,9,0}x{3,5,9,0,30}, measured at the remote end with the monotonic clock: "
+              "early expiry (Hold Timer Expired / close read less than negotiated-20ms after the remote STARTED writing its last "
+              "KEEPALIVE/UPDATE/OPEN), any teardown or periodic KEEPALIVE with negotiated 0, NOTIFICATION != 4/0, and - only with "
+              "the heartbeat proof that the runtime was responsive - no teardown after silence, expiry > 2 s late, more than "
+              "keepalive+1.2 s without a KEEPALIVE/UPDATE from the daemon"],
     assumptions=["trusted base: VDriver in c08.rs transcribes apply_outputs / flush_tx / run_select timer handling "
                  "(one sleep per timer, replaced by now+n, hold polled before keepalive before socket, drained FuturesUnordered "
                  "yields once more)",
                  "timing before the OPEN exchange (the 240 s OpenSent hold timer) is not judged",
                  "an UPDATE sent may or may not restart the keepalive interval (statement silent); both accepted",
                  "a message arriving at exactly the hold deadline is delivered after the expiry (select_biased order)",
+                 "real-time part: load makes things late, never early; 'early' verdicts rest on observed events and time stamps "
+                 "taken before the remote's write; an early expiry after a re-arming message and every 'late' verdict additionally "
+                 "need max heartbeat lag < 0.4 s (1 s for no-teardown) in the interval, else they are counted as unjudged; the script "
+                 "keeps every hold deadline at least 1.2 s away",
                  "thorough tier: five real PeerSessions over loopback are compared with the model's prediction "
                  "(counters real-session:*); wall-clock, so they only confirm"],
     floor=dict(evaluations=100000, nontrivial=50000,
@@ -25,12 +35,19 @@ CFG = dict(
                          "clause:zero-disables:step": 3000, "clause:re-arm:rearming-input": 10000,
                          "clause:re-arm:non-rearming-input": 40000, "clause:expiry-iff:hold-fired": 15000,
                          "clause:negotiated:keepalive-fired": 30000, "reach:established": 4000,
-                         "random:histories": 2000, "exhaustive:pair-role-combinations-completed": 20}),
+                         "random:histories": 2000, "exhaustive:pair-role-combinations-completed": 20,
+                         # real-time part
+                         "real:sessions-finished": 150, "clause:real:expiry:observed": 80, "clause:real:zero:observed": 20,
+                         "clause:real:keepalive-gap:observed": 80, "real:sessions:class-kept-alive": 40,
+                         "real:sessions:class-silence": 25, "real:sessions:pair-9/3": 15, "real:sessions:pair-3/30": 8,
+                         "real:sessions:open-sent-blind": 50, "real:expiry:notification-4-0": 80}),
     quick=[e2("exh", "event::verif::c08::run", 4, 300, part="exhaustive", nshards=4, depth=6),
-           e2("rnd", "event::verif::c08::run", 1, 60, part="random", random=10000)],
+           e2("rnd", "event::verif::c08::run", 1, 60, part="random", random=10000),
+           e2("rt", "event::verif::c08b::run", 1, 120, sessions=240, workers=4)],
     thorough=[e2("exh", "event::verif::c08::run", 16, 1200, part="exhaustive", nshards=16, depth=8),
               e2("rnd", "event::verif::c08::run", 4, 600, part="random", random=100000),
               # wall-clock cross-check of the VDriver transcription against real PeerSessions over
               # loopback (hold time 0 and 3); never a verdict, only confirms / flags an unfaithful model
-              e2("real", "event::verif::c08::run", 1, 120, part="real")],
+              e2("real", "event::verif::c08::run", 1, 120, part="real"),
+              e2("rt", "event::verif::c08b::run", 2, 400, sessions=400, workers=4)],
 )
